@@ -521,8 +521,12 @@ def _do(world, st, op):
             return {'outcome': 'skip', 'skipped': 'no-node'}
 
         md = node.meta
+        keys = sorted(md, key=str)
 
-        for k in sorted(md, key=str):
+        if op.get('prefer') in md:
+            keys.insert(0, op['prefer'])
+
+        for k in keys:
             v = md[k]
 
             if isinstance(v, dict):
